@@ -24,10 +24,13 @@ THEOREM_NOTES = "see coq/Props/C16.v: [G] general (all sizes), [B] bounded (boun
 LEVEL_TEXT = ("Coq theorems over the reals about the Gallina model coq/Model/LinAlg.v (REPAIRED behaviour, fixes/C16-*.diff): "
               "vector/matrix helper identities [G]; Doolittle L*U = A with L unit lower / U upper triangular for all sizes given non-zero "
               "pivots [G]; forward/backward substitution and lu_solve A*X = B [G]; matrix_pivot returns rows of I and of M under one "
-              "permutation [G]; lu_factor / matrix_inverse correct given non-zero pivots [G]; determinant = Leibniz formula for n <= 3 [B]; "
+              "permutation [G]; lu_factor / matrix_inverse correct given non-zero pivots [G]; round 2: every strictly diagonally dominant matrix of every size "
+              "has only non-zero Doolittle pivots (Schur-complement induction), so lu_solve returns a result with A*X = B, unique, also on the "
+              "executed Q instance [G]; matrix_determinant = the Leibniz sum over permutations for EVERY size and pivoting pattern given non-zero "
+              "pivots, and any non-zero returned value is the Leibniz determinant [G] (Laplace expansion, alternating multilinearity, det(LU)); "
               "history independence of the repaired lru_cache state machine for all call sequences [G] and a refutation witness for the "
-              "pinned aliasing behaviour. NOT proved (tied by the correspondence/oracle only): non-zero pivots for strictly diagonally "
-              "dominant and spline collocation matrices; determinant for n > 3; floating-point rounding.")
+              "pinned aliasing behaviour. NOT proved (tied by the correspondence/oracle only): non-zero pivots for spline collocation matrices "
+              "(total positivity); floating-point rounding.  Known finding: determinant 0 for some non-singular matrices with a vanishing leading minor.")
 LEVEL_NOTE = ("Trusted: Coq 8.16.1 kernel incl. vm_compute; standard-library real-number axioms as printed by Print Assumptions; the "
               "hand-written model's fidelity to geomdl/linalg.py is sampled by the correspondence check (1e-9 tolerance; call sequences "
               "of length <= 6); sqrt modelled by the squared norm; lru_cache modelled as an LRU association list")
